@@ -147,11 +147,15 @@ Definition pd_index (s : span) : option pindex :=
   | SRange => Some (mkIndex KRange PInt64 (splabels s))
   | SPandas k d => Some (mkIndex k d (splabels s))
   | SList | STuple | SNdarray =>
+    match splabels s, spkind s with
+    | [], SNdarray => Some (mkIndex KIndex PFloat64 [])          (* np.array([]) is a float64 array *)
+    | _, _ =>
     match pd_infer (splabels s) with
     | Some (PPeriod f, cs) => Some (mkIndex KPeriodIndex (PPeriod f) cs)
     | Some (PDatetime, cs) => Some (mkIndex KDatetimeIndex PDatetime cs)
     | Some (d, cs) => Some (mkIndex KIndex d cs)
     | None => None
+    end
     end
   end.
 
@@ -359,19 +363,23 @@ Definition from_table (c : mclass) (t : table) : tres fmodel :=
 
 (* ------------------------------------------------------------------ symbols_to_dataframe / dataframe_to_symbols *)
 Definition cell_of_ostr (o : option string) : cell := match o with Some s => CStr s | None => CNone end.
-Definition cell_of_oidx (o : option pidx) : option cell :=
-  match o with
-  | None => Some CNone
-  | Some (IInt z) => if in_int64 z then Some (CInt z) else None
-  | Some (IStr _) => None
-  end.
-
 Fixpoint all_some {A} (l : list (option A)) : option (list A) :=
   match l with
   | [] => Some []
   | Some x :: r => match all_some r with Some r' => Some (x :: r') | None => None end
   | None :: _ => None
   end.
+
+(* a lag / lead outside int64 is tabulated only for columns without None (strict = the column holds a None) *)
+Definition cell_of_oidx (strict : bool) (o : option pidx) : option cell :=
+  match o with
+  | None => Some CNone
+  | Some (IInt z) => if strict && negb (in_int64 z) then None else Some (CInt z)
+  | Some (IStr _) => None
+  end.
+Definition is_None {A} (o : option A) : bool := match o with None => true | Some _ => false end.
+Definition idx_cells (os : list (option pidx)) : option (list cell) :=
+  all_some (map (cell_of_oidx (existsb is_None os)) os).
 
 Definition mk_column (name : string) (cs : list cell) : option pcolumn :=
   match pd_infer cs with Some (d, cs') => Some (mkCol name d cs') | None => None end.
@@ -383,7 +391,7 @@ Definition symbols_to_table (ss : list symbol) : tres table :=
   match ss with
   | [] => TOk (mkTable ix [])
   | _ =>
-    match all_some (map (fun s => cell_of_oidx (slags s)) ss), all_some (map (fun s => cell_of_oidx (sleads s)) ss) with
+    match idx_cells (map slags ss), idx_cells (map sleads ss) with
     | Some lg, Some ld =>
       match mk_column "name" (map (fun s => cell_of_ostr (sname s)) ss),
             mk_column "type" (map (fun s => CInt (type_value (stype s))) ss),
